@@ -485,7 +485,9 @@ class ProgGen:
         k = ty["k"]
         r = self.rng.random()
         if r < 0.2 or d <= 0 and k not in ("bool", "int"):
-            return self.irrefutable(ty, 0, False)
+            # a binding; now and then one that shadows a variable of the enclosing scopes (it must be gone again in
+            # the arms that follow: every arm is checked and compiled in a scope of its own)
+            return self.irrefutable(ty, 0, self.rng.random() < 0.5)
         if k == "bool":
             b = self.rng.random() < 0.5
             return ("true" if b else "false", ["bool", b], [])
